@@ -58,7 +58,7 @@ PROP = dict(
     bin="c15",
     run_targets=["Run/RunC15.vo"],
     prop_targets=["Properties/C15.vo"],
-    cases=dict(quick=6000, thorough=60000),
+    cases=dict(quick=8000, thorough=60000),
     level="proof",
     rule="graphs from 9 families (random symmetric at 4 densities, grid, path, star, disconnected, isolated incl. trailing "
          "isolated vertices, complete, cycle, tiny/edgeless/empty) x 3 edge-weight ranges x 7 partition families (balanced, "
@@ -96,7 +96,7 @@ MANIFEST = dict(
          "flags. Every implementation output is compared with the model's (exact partitions) and judged by a checker proved "
          "equivalent to the property (length, per-id counts, brute-force cut).",
     design_ref="DESIGN.md §7 C15",
-    note="Trusted: Coq kernel; the model<->code tie is the translator (three structural flags) plus differential runs (6k/60k cases, "
+    note="Trusted: Coq kernel; the model<->code tie is the translator (three structural flags) plus differential runs (8k/60k cases, "
          "exact partition equality); edge weights/gains are modelled in Z (integer-valued f64 below 2^53). No axioms. Inputs with "
          "more than two distinct ids panic (unimplemented!): known-finding class kl-not-two-parts, counted under C02, prop_ok = true here.",
     technique="Coq proof (loop invariants over the swap history; disjoint transpositions commute) + translator + model/implementation "
